@@ -541,6 +541,18 @@ def dispatch_check(eng, b, pre_state, s, n, want_cycles, guard, allow_reads=Fals
     regs += [fld(eng, s, b, "halted"), fld(eng, s, b, "haltbug") != fld(eng, pre_state, b, "haltbug"),
              fld(eng, s, b, "stopped") != fld(eng, pre_state, b, "stopped")]
     v["regs"] = z3.Or(*regs)
+    # the OAM-bug hook in the dispatch cycles: at most once per machine cycle, and every cycle that touches the bus (the two
+    # pushes - the stack may lie in OAM) ends with it
+    def _cyc(e):
+        return e[3] if e[0] in ("R", "W") else (e[2] if e[0] == "T" else e[1])
+    evs_all = s.trace[len(pre_state.trace):]
+    ok_order = True
+    for c in sorted({_cyc(e) for e in evs_all if e[0] in ("R", "W", "T", "K")}):
+        es = [e for e in evs_all if _cyc(e) == c]
+        ks = [i for i, e in enumerate(es) if e[0] == "K"]
+        if len(ks) > 1 or (any(e[0] in ("R", "W", "T") for e in es) and (len(ks) != 1 or ks[0] != len(es) - 1)):
+            ok_order = False
+    v["oambug"] = z3.BoolVal(not ok_order)
     return {k: z3.And(guard, x) for k, x in v.items()}
 
 
@@ -745,6 +757,15 @@ def halt_lemmas(ctx, eng, ce):
     lem.add("lemma:halt-idle:cycle-changes-nothing", z3.Or(*viol) if viol else z3.BoolVal(True))
     lem.add("canary:halt-idle-clears-halted", z3.And(outs[0][0].pcond(), fld(eng, outs[0][0], b, "halted")) if outs else z3.BoolVal(False),
             info={"canary": True})
+    # (2b) the same for a CPU stopped by STOP (it leaves that state through OnInput only): no fetch, no bus access, no change
+    st, pre, pre_state = start(lambda st, pre: [fld(eng, st, b, "stopped"), z3.Not(pending_term(eng, st, b)), z3.Not(fld(eng, st, b, "haltbug"))])
+    lem.covers.append(("lemma:stop-idle#cover", pre_state.pcond()))
+    st.ghost["cycle"] = 1
+    outs = eng.call_function(st, emc, [b.cpu])
+    viol = []
+    for (s, _) in outs:
+        viol.append(z3.And(s.pcond(), z3.Or(state_same(eng, b, s, pre_state), z3.BoolVal(len(s.trace) != len(pre_state.trace)))))
+    lem.add("lemma:stop-idle:cycle-changes-nothing", z3.Or(*viol) if viol else z3.BoolVal(True))
     # (3) halted, IME set, request appears: dispatched, one machine cycle later than from a running CPU
     st, pre, pre_state = start(lambda st, pre: [fld(eng, st, b, "halted"), pending_term(eng, st, b), pre["ime"], z3.Not(fld(eng, st, b, "haltbug"))])
     eng.terminals, eng.obligs = [], []
